@@ -628,6 +628,9 @@ Section PosLoop.
   Qed.
 End PosLoop.
 
+Lemma fold_term_none : forall rho d, fold_right (term_sem rho) None d = None.
+Proof. induction d as [|p r IH]; cbn [fold_right]; [reflexivity|]. rewrite IH. reflexivity. Qed.
+
 Lemma pos_guard_add : forall c d, pos_guard (EAdd c d) = true ->
   coef_real_exact c = true /\ d <> [] /\ forall k, In k (map fst d) -> pos_guard k = true.
 Proof.
@@ -665,8 +668,7 @@ Proof.
     change (fold_right (fun p acc => add_step (vfin (denote rho (fst p))) (vfin (num_val (snd p))) acc) (vfin (num_val coef)) d)
       with (fold_right (term_sem rho) (vfin (num_val coef)) d) in D.
     destruct (vfin (num_val coef)) as [cz|] eqn:EC.
-    2:{ exfalso. clear -D. induction d as [|p r IHr]; cbn in D; [discriminate D|].
-        unfold term_sem at 1, add_step in D. destruct (fold_right (term_sem rho) None r); [|discriminate D]. now apply IHr. }
+    2:{ rewrite fold_term_none in D. discriminate D. }
     destruct (fold_right (term_sem rho) (Some cz) d) as [z|] eqn:EF; [|discriminate D]. injection D as <-.
     assert (CQ : exists q, num_q coef = Some q /\ cz = (q, 0)).
     { destruct (num_fin_cases coef cz EC) as [K|(rn & rd & imn & imd & -> & _)]; [exact K | discriminate GC]. }
